@@ -15,6 +15,7 @@ import io
 import json
 import os
 import random
+import re
 import time
 
 from checks import e1common, irload, oracle, pool, refcommon
@@ -155,6 +156,8 @@ def standin(rep: Report):
                 bad = f"text {e.get('text')!r} does not begin with source line {e['lineno']} {line!r}"
         if bad:
             site = "bare" if bad.startswith("bare") else ("tokenize-indent" if e.get("filename") == "<tokenize>" else "field")
+            if site == "field" and re.search(r"\((unicode|value) error\)|bytes can only contain ASCII|invalid \w+ literal|leading zeros|invalid character|unterminated string", e.get("msg", "")):
+                site = "literal_eval"        # raised by ast.literal_eval on a token's text: carries the token's own coordinates (known finding)
             si.failures.append({"input": c, "site": f"error:{site}", "what": f"{e['cls']}: {bad}", "observed": {"problem": bad, "msg": e.get("msg", "")[:80], "args": [e.get(k) for k in ("filename", "lineno", "offset", "end_lineno", "end_offset")]}})
     si.samples = cases[:3]
     si.seconds = time.time() - t0
